@@ -221,6 +221,9 @@ pub const SRC_P2: &str = "\n\npragma solidity ^0.8.0;\ncontract A {\n  function 
 pub const SRC_PQ: &str = "pragma solidity ^0.8.0;\ncontract B {\n  uint256 private hidden;\n  function g(uint256 a, uint256 b, address t) public payable returns (bool) {\n    IERC20(t).transfer(t, a - b);\n    return a >= b;\n  }\n  constructor() {}\n}\n";
 pub const SRC_SUICIDE: &str = "pragma solidity 0.8.19;\ncontract K {\n  function kill(address payable to) external {\n    suicide(to);\n  }\n}\n";
 pub const SRC_SPACED: &str = "pragma solidity ^0.8.0;\ncontract Sp {\n  function g(address t, uint256 a) public payable {\n    IERC20(t) .\n      transfer(t, a - 1);\n    IERC20(t) . /* c */ approve(t, a);\n  }\n}\n";
+/// a file without any contract / interface / library: free function, file-level struct, constant, error; and a directive-only file
+pub const SRC_FREE: &str = "pragma solidity ^0.8.0;\nfunction free(uint256[] memory p, uint256 q) pure returns (uint256) {\n  return p[0] / q * 4 + q + 1;\n}\nstruct Lone { uint128 a; uint256 b; uint128 c; }\nuint256 constant K = 7 * 2;\nerror Failed(uint256 a);\n";
+pub const SRC_DIRECTIVE_ONLY: &str = "pragma solidity ^0.8.0;\n";
 pub const SRC_NONE: &str = "pragma solidity 0.8.19;\ncontract N {\n}\n";
 pub const GARBAGE: &[u8] = b"this is { not solidity ))) \n";
 pub const NON_UTF8: &[u8] = &[0xff, 0xfe, 0x00, 0x80, b'\n', 0xc3];
@@ -438,6 +441,11 @@ pub fn c03(tier: Tier) -> i32 {
             trees.push(vec![file("V18446744073709551616.sol", p), file("V18446744073709551617.sol", pq), file("V018446744073709551616.sol", p2)]);
             trees.push(vec![file("A.t.sol", pq), file("B.t.sol", pq), file("C.sol", p), file("D.T.SOL", pq), file("E.t.sol", pq)]);
             trees.push(vec![file("A.t.sol", pq), file("B.t.sol", pq)]);
+            // files without any contract (free functions, file-level struct / constant / error), a directive-only file, an empty and a
+            // comment-only file next to ordinary ones
+            trees.push(vec![file("Math.sol", SRC_FREE.as_bytes()), file("Only.sol", SRC_DIRECTIVE_ONLY.as_bytes()), file("Token.sol", pq), d("types", vec![file("Types.sol", SRC_FREE.as_bytes()), file("Empty.sol", b""), file("Comment.sol", b"// nothing here\n/* at all */")])]);
+            trees.push(vec![file("Only.sol", SRC_DIRECTIVE_ONLY.as_bytes())]);
+            trees.push(vec![file("Math.sol", SRC_FREE.as_bytes())]);
             // the same construct at the same byte offset on different lines (a blank run against a line feed), side by side
             let same_off_a = "pragma solidity ^0.8.0; contract A {\n    uint256 private total; function f(uint256 a) public returns (uint256) { return a + 1; }\n}\n";
             let same_off_b = "pragma solidity ^0.8.0; contract A {     uint256 private total; function f(uint256 a) public returns (uint256) { return a + 1; }\n}\n";
@@ -840,6 +848,8 @@ pub fn c16(tier: Tier) -> i32 {
         trees.push(vec![dd("token", vec![fa("Token.sol")]), dd("vault", vec![file("notes.txt", GARBAGE), fb("Vault.sol")])]);
         trees.push(vec![dd("token", vec![file("a.t.sol", pq), fb("Token.sol")]), dd("vault", vec![file("b.t.sol", GARBAGE), fa("Vault.sol")])]);
         trees.push(vec![fa("Same.sol"), dd("sub", vec![fb("Same.sol")]), dd("sub2", vec![fa("Same.sol")])]);
+        // eligible files without any contract, next to files that are not analysed
+        trees.push(vec![dd("libraries", vec![file("Math.sol", SRC_FREE.as_bytes()), file("Math.t.sol", pq)]), file("Only.sol", SRC_DIRECTIVE_ONLY.as_bytes()), file("notes.txt", GARBAGE)]);
     }
     // an eligible file 70 directories deep next to ineligible ones on the way down
     {
@@ -1214,14 +1224,19 @@ pub fn c13_directory_level(tier: Tier) -> DirLevel {
         }
         // many findings of one pattern in one file (more than a thousand), and a function with several memory parameters on
         // lines of their own: the same directory rendered six times (both listing orders, three times each, fresh threads,
-        // hence fresh hash seeds) gives the same bytes
+        // hence fresh hash seeds) gives the same bytes; so does every other listing order
         {
             let root2 = dir.join("many");
             let many = format!(
                 "pragma solidity 0.8.19;\ncontract Many {{\n  uint256 i;\n  function f(\n    bytes memory first,\n    string memory second,\n    uint256[] memory third\n  ) external returns (uint256) {{\n{}    return i;\n  }}\n}}\n",
                 "    i++;\n".repeat(1001)
             );
-            let tree2 = vec![file("Many.sol", many.as_bytes()), file("D.sol", crate::c15::BODY_B.as_bytes())];
+            // ... plus nested divisions spread over lines (one finding inside another), and a value type declared in one file and
+            // used by name in another (what one file declares must not decide another file's verdict, whichever is listed first)
+            let many = many.replace("    return i;\n", &format!("{}    return i;\n", "    i = (\n      i / 3 * 5\n    ) * 7;\n".repeat(6)));
+            let types = "pragma solidity 0.8.19;\ntype Price is uint128;\ntype Qty is uint64;\n";
+            let book = "pragma solidity 0.8.19;\nimport \"./Types.sol\";\nstruct Order { Price bid; uint256 amount; Price ask; }\ncontract Book { Qty a; uint256 b; Qty c; }\n";
+            let tree2 = vec![file("Many.sol", many.as_bytes()), file("D.sol", crate::c15::BODY_B.as_bytes()), file("Types.sol", types.as_bytes()), file("Book.sol", book.as_bytes())];
             materialise(&root2, &tree2);
             let r2 = root2.to_str().unwrap().to_string();
             let orders2 = all_orders(&root2, &tree2);
@@ -1231,6 +1246,10 @@ pub fn c13_directory_level(tier: Tier) -> DirLevel {
             let mut reps2: Vec<(usize, Result<String, String>)> = Vec::new();
             for round in 0..3 {
                 for (k, order) in orders2.iter().enumerate() {
+                    // every listing order once, the first two three times
+                    if round > 0 && k >= 2 {
+                        continue;
+                    }
                     let (r2, order, all_o, all_v, all_q) = (r2.clone(), order.clone(), all_o.clone(), all_v.clone(), all_q.clone());
                     let rep = std::thread::spawn(move || {
                         solstat::verif_fs::set_order(order);
